@@ -30,10 +30,10 @@ import (
 // mapConf is a minimal config.Config over a map (only what ApplyConfig reads matters).
 type mapConf map[string]string
 
-func (m mapConf) ApplyDefault()        {}
-func (m mapConf) GetConfFile() string  { return "" }
-func (m mapConf) Destroy()             {}
-func (m mapConf) GetKeys() []string    { return nil }
+func (m mapConf) ApplyDefault()            {}
+func (m mapConf) GetConfFile() string      { return "" }
+func (m mapConf) Destroy()                 {}
+func (m mapConf) GetKeys() []string        { return nil }
 func (m mapConf) GetValue(k string) string { return m[k] }
 func (m mapConf) GetValueDef(k, def string) string {
 	if v, ok := m[k]; ok && v != "" {
